@@ -179,7 +179,7 @@ class V(object):
             if not isinstance(v, str):
                 return self.add(path, "kind", "not a string")
             try:
-                base64.b64decode(v, validate=True)
+                base64.b64decode("".join(v.split()), validate=True)        # embedded whitespace / line wrapping: tolerated (not clear-cut)
             except (binascii.Error, ValueError):
                 self.add(path, "binary", "not base64")
             return
@@ -209,6 +209,8 @@ class V(object):
             if tc is None:
                 return self.add(path, "ref-custom-type", "reference to a type that is not part of the specification: %s" % t)
             hit = (tc in p["classes"]) or (t in p["types"])
+            if p["auth"] == "allow" and p["classes"] and tc == "META" and t != "bundle":
+                hit = True       # "STIX Object" references: whether meta objects are included is not clear-cut; accepted
             if (p["auth"] == "allow" and not hit) or (p["auth"] == "deny" and hit):
                 self.add(path, "ref-target", "reference to %s is not allowed here" % t)
             return
@@ -382,8 +384,8 @@ def c_malware_21(v, o, path):
 
 
 def c_observed_data(v, o, path):
-    _le("first_observed", "last_observed")(v, o, path)
     if v.version == "2.1":
+        _le("first_observed", "last_observed")(v, o, path)
         n = ("objects" in o) + ("object_refs" in o)
         if n != 1:
             v.add(path, "exactly-one", "exactly one of objects / object_refs")
@@ -426,6 +428,8 @@ def c_email_message(v, o, path):
 
 def c_network_traffic(v, o, path):
     _at_least_one(["src_ref", "dst_ref"])(v, o, path)
+    if v.version != "2.1":
+        return
     _le("start", "end")(v, o, path)
     if "end" in o and o.get("is_active") is True:
         v.add(path, "dependency", "end must not be present when is_active is true")
@@ -442,7 +446,8 @@ def c_socket_ext(v, o, path):
 
 
 def c_indicator(v, o, path):
-    _le("valid_from", "valid_until", strict=True)(v, o, path)
+    if v.version == "2.1":
+        _le("valid_from", "valid_until", strict=True)(v, o, path)
     if v.version == "2.0" or o.get("pattern_type") == "stix":
         pat = o.get("pattern")
         if isinstance(pat, str):
@@ -481,11 +486,12 @@ def c_pe_optional_header(v, o, path):
 CONSTRAINTS = {
     ("*", "embedded:ExternalReference"): c_external_reference,
     ("2.1", "embedded:GranularMarking"): c_granular_marking_21,
-    ("*", "objects:campaign"): _le("first_seen", "last_seen"),
+    # ordering / activity / "at least one" MUSTs that I can only pin to the 2.1 text are enforced for 2.1 only (DESIGN Appendix A)
+    ("2.1", "objects:campaign"): _le("first_seen", "last_seen"),
     ("2.1", "objects:infrastructure"): _le("first_seen", "last_seen"),
-    ("*", "objects:intrusion-set"): _le("first_seen", "last_seen"),
+    ("2.1", "objects:intrusion-set"): _le("first_seen", "last_seen"),
     ("2.1", "objects:threat-actor"): _le("first_seen", "last_seen"),
-    ("*", "objects:sighting"): _le("first_seen", "last_seen"),
+    ("2.1", "objects:sighting"): _le("first_seen", "last_seen"),
     ("2.1", "objects:malware"): c_malware_21,
     ("2.1", "objects:location"): c_location,
     ("2.1", "objects:malware-analysis"): _at_least_one(["result", "analysis_sco_refs"]),
@@ -499,8 +505,8 @@ CONSTRAINTS = {
     ("2.1", "observables:file"): _at_least_one(["hashes", "name"]),
     ("2.0", "observables:file"): c_file_20,
     ("*", "observables:network-traffic"): c_network_traffic,
-    ("*", "observables:process"): c_process,
-    ("*", "observables:x509-certificate"): c_x509,
-    ("*", "extensions:socket-ext"): c_socket_ext,
+    ("2.1", "observables:process"): c_process,
+    ("2.1", "observables:x509-certificate"): c_x509,
+    ("2.1", "extensions:socket-ext"): c_socket_ext,
     ("*", "embedded:WindowsPEOptionalHeaderType"): c_pe_optional_header,
 }
